@@ -306,4 +306,155 @@ Section Iter.
     exists idxs. split; [exact E|]. split; [exact ND|]. intros i. split; [apply D3|].
     intros Hi. destruct (D2 i Hi) as [H|(v & s & [] & _)]. exact H.
   Qed.
+
+  (** ** The range iterator *)
+  Lemma last_nth' (l : list Z) d : l <> [] -> last l d = nth (length l - 1) l d.
+  Proof.
+    induction l as [|a t IH]; intros H; [contradiction|]. destruct t as [|b t']; [reflexivity|].
+    change (last (a :: b :: t') d) with (last (b :: t') d). rewrite IH by discriminate. cbn [length].
+    replace (S (S (length t')) - 1)%nat with (S (S (length t') - 1)) by lia. reflexivity.
+  Qed.
+
+  Lemma n_ge_2 : 2 <= n.
+  Proof.
+    pose proof (b_first _ _ _ B) as F. pose proof (b_last _ _ _ B) as L. unfold n.
+    destruct rs as [|r0 [|r1 t]]; cbn in *; try lia;
+      rewrite first_leaf_eq in F; rewrite end_leaf_eq in L; lia.
+  Qed.
+
+  Lemma start_first : start_at 0 = first_leaf.
+  Proof.
+    pose proof (b_first _ _ _ B) as F. pose proof n_ge_2. unfold start_at, ri_StartID, nth_rnode, nthZ. cbn.
+    destruct rs as [|r0 t]; [unfold n in H; cbn in H; lia|]. exact F.
+  Qed.
+
+  Lemma start_last : start_at (n - 1) = end_leaf.
+  Proof.
+    pose proof (b_last _ _ _ B) as L. pose proof n_ge_2 as H. unfold n in *.
+    rewrite last_nth' in L by (destruct rs; [cbn in H; lia|discriminate]).
+    rewrite map_length in L. unfold start_at, ri_StartID, nth_rnode, nthZ.
+    destruct (Z.ltb_spec (Z.of_nat (length rs) - 1) 0); [lia|].
+    replace (Z.to_nat (Z.of_nat (length rs) - 1)) with (length rs - 1)%nat by lia.
+    rewrite <- L. change 0 with (fst (0, -1)) at 2. rewrite map_nth. reflexivity.
+  Qed.
+
+  (** the last range node is the sentinel: nothing is open there *)
+  Lemma sentinel_empty : cont_at (n - 1) = -1.
+  Proof.
+    pose proof n_ge_2. destruct (chain_exists (n - 1) ltac:(lia)) as (s & Hs & Hp).
+    rewrite start_last in Hp.
+    assert (E : open_at adds end_leaf = []).
+    { unfold open_at. apply filter_false. intros a Ha. pose proof Hadds as HA. rewrite Forall_forall in HA.
+      destruct (HA a Ha) as [V _]. pose proof (valid_range _ V). unfold p_close, p_open. rewrite end_leaf_eq. lia. }
+    rewrite E in Hp. apply Permutation_sym, Permutation_nil in Hp. destruct Hs as [|k s0 Hk Hc]; [reflexivity|discriminate].
+  Qed.
+
+  Lemma skip_plain fuel pos : ri_skip rs false fuel pos = pos.
+  Proof. destruct fuel; reflexivity. Qed.
+
+  (** [ri_skip] of the non-empty iterator stops at the first non-empty range, or at the sentinel *)
+  Lemma skip_spec : forall (fuel : nat) pos, 0 <= pos <= n - 1 -> n - 1 - pos <= Z.of_nat fuel ->
+    let q := ri_skip rs true fuel pos in
+    pos <= q <= n - 1 /\ (forall j, pos <= j < q -> cont_at j = -1) /\ (q < n - 1 -> cont_at q <> -1).
+  Proof.
+    induction fuel as [|f IH]; intros pos Hp Hf; cbn [ri_skip]; cbv zeta.
+    - assert (pos = n - 1) by lia. split; [lia|]. split; intros; lia.
+    - unfold ri_IsEmpty, ri_Done. fold n. fold (cont_at pos). unfold doneContents. cbn [andb].
+      destruct (Z.eqb_spec (cont_at pos) (-1)) as [E|NE]; cbn [andb].
+      + destruct (Z.leb_spec (n - 1) pos) as [Hd|Hd]; cbn [negb].
+        * split; [lia|]. split; intros; lia.
+        * destruct (IH (pos + 1) ltac:(lia) ltac:(lia)) as (H1 & H2 & H3). split; [lia|]. split; [|exact H3].
+          intros j Hj. destruct (Z.eq_dec j pos) as [->|]; [exact E|]. apply H2. lia.
+      + split; [lia|]. split; [intros; lia|intros _; exact NE].
+  Qed.
+
+  Definition stop_point (q : Z) : Prop := 0 <= q <= n - 1 /\ (q < n - 1 -> cont_at q <> -1).
+
+  Theorem nonempty_begin : let q := ri_Begin rs true in
+    stop_point q /\ forall j, 0 <= j < q -> cont_at j = -1.
+  Proof.
+    pose proof n_ge_2. cbv zeta. unfold ri_Begin.
+    destruct (skip_spec (length rs) 0 ltac:(lia) ltac:(unfold n; lia)) as (H1 & H2 & H3).
+    split; [split; [lia|exact H3]|exact H2].
+  Qed.
+
+  Theorem nonempty_next pos : 0 <= pos < n - 1 -> let q := ri_Next rs true pos in
+    stop_point q /\ pos < q /\ forall j, pos < j < q -> cont_at j = -1.
+  Proof.
+    intros Hp. cbv zeta. unfold ri_Next.
+    destruct (skip_spec (length rs) (pos + 1) ltac:(lia) ltac:(unfold n; lia)) as (H1 & H2 & H3).
+    split; [split; [lia|exact H3]|]. split; [lia|]. intros j Hj. apply H2. lia.
+  Qed.
+
+  (** Begin, then Next until Done, with the non-empty iterator: exactly the non-empty ranges, in order *)
+  Fixpoint visit_all (fuel : nat) (pos : Z) : list Z :=
+    match fuel with
+    | O => []
+    | S k => if ri_Done rs pos then [] else pos :: visit_all k (ri_Next rs true pos)
+    end.
+
+  Lemma visit_all_spec : forall (fuel : nat) pos, stop_point pos -> n - 1 - pos <= Z.of_nat fuel ->
+    StronglySorted Z.lt (visit_all fuel pos) /\
+    (forall j, In j (visit_all fuel pos) <-> pos <= j < n - 1 /\ cont_at j <> -1) /\
+    (forall j, In j (visit_all fuel pos) -> pos <= j).
+  Proof.
+    induction fuel as [|f IH]; intros pos [Hp Hne] Hf; cbn [visit_all].
+    - split; [constructor|]. split; [|intros ? []]. intros j. split; [intros []|lia].
+    - unfold ri_Done. fold n. destruct (Z.leb_spec (n - 1) pos) as [Hd|Hd].
+      + split; [constructor|]. split; [|intros ? []]. intros j. split; [intros []|lia].
+      + destruct (nonempty_next pos ltac:(lia)) as (Sq & Hlt & Hempty). cbv zeta in *.
+        set (q := ri_Next rs true pos) in *.
+        destruct (IH q Sq ltac:(lia)) as (I1 & I2 & I3).
+        split; [|split].
+        * constructor; [exact I1|]. rewrite Forall_forall. intros j Hj. specialize (I3 j Hj). lia.
+        * intros j. cbn [In]. rewrite I2. split.
+          -- intros [<-|[H1 H2]]; [split; [lia|apply Hne; lia]|split; [lia|exact H2]].
+          -- intros [H1 H2]. destruct (Z.eq_dec pos j) as [|Hn]; [left; assumption|right].
+             split; [|exact H2]. destruct (Z_lt_le_dec j q); [|lia]. exfalso. apply H2. apply Hempty. lia.
+        * intros j [<-|Hj]; [lia|]. specialize (I3 j Hj). lia.
+  Qed.
+
+  Theorem nonempty_iteration :
+    let l := visit_all (length rs) (ri_Begin rs true) in
+    StronglySorted Z.lt l /\ forall j, In j l <-> 0 <= j < n - 1 /\ cont_at j <> -1.
+  Proof.
+    cbv zeta. destruct nonempty_begin as [Sq Hempty]. cbv zeta in *. set (q := ri_Begin rs true) in *.
+    destruct (visit_all_spec (length rs) q Sq ltac:(destruct Sq; unfold n; lia)) as (I1 & I2 & _).
+    split; [exact I1|]. intros j. rewrite I2. split; [intros [H1 H2]; destruct Sq; split; [lia|exact H2]|].
+    intros [H1 H2]. split; [|exact H2]. destruct (Z_lt_le_dec j q); [|lia]. exfalso. apply H2. apply Hempty. lia.
+  Qed.
+
+  (** Seek positions the iterator on the range that contains the target leaf *)
+  Theorem seek_plain t : first_leaf <= t < end_leaf ->
+    let p := ri_Seek rs false t in 0 <= p < n - 1 /\ start_at p <= t < start_at (p + 1).
+  Proof.
+    intros Ht. cbv zeta. unfold ri_Seek. fold n. rewrite skip_plain. pose proof n_ge_2 as Hn.
+    set (f := fun i => t <? fst (nth_rnode rs i)).
+    assert (Mono : forall i j, 0 <= i <= j -> j < n -> f i = true -> f j = true).
+    { intros i j Hij Hj Hi. unfold f in *. destruct (Z.eq_dec i j) as [->|]; [exact Hi|].
+      pose proof (start_mono i j ltac:(lia) ltac:(lia) Hj). unfold start_at, ri_StartID in H. lia. }
+    destruct (sort_Search_spec f n ltac:(lia) Mono) as (H1 & H2 & H3). cbv zeta in *.
+    set (r := sort_Search n f) in *.
+    assert (Hr1 : 1 <= r).
+    { destruct (Z_lt_le_dec r 1); [|assumption]. exfalso. specialize (H3 0 ltac:(lia)). unfold f in H3.
+      pose proof start_first. unfold start_at, ri_StartID in H. lia. }
+    assert (Hr2 : r <= n - 1).
+    { destruct (Z_le_gt_dec r (n - 1)); [assumption|]. exfalso. specialize (H2 (n - 1) ltac:(lia)). unfold f in H2.
+      pose proof start_last. unfold start_at, ri_StartID in H. lia. }
+    destruct (Z.ltb_spec (r - 1) 0); [lia|].
+    split; [lia|]. replace (r - 1 + 1) with r by lia.
+    specialize (H2 (r - 1) ltac:(lia)). specialize (H3 r ltac:(lia)). unfold f in H2, H3. unfold start_at, ri_StartID. lia.
+  Qed.
+
+  Theorem seek_nonempty t : first_leaf <= t < end_leaf ->
+    let p := ri_Seek rs false t in let q := ri_Seek rs true t in
+    stop_point q /\ p <= q /\ forall j, p <= j < q -> cont_at j = -1.
+  Proof.
+    intros Ht. cbv zeta. destruct (seek_plain t Ht) as [Hp _]. cbv zeta in Hp.
+    unfold ri_Seek in Hp |- *. fold n in Hp |- *. rewrite skip_plain in Hp.
+    set (p := if sort_Search n (fun i => t <? fst (nth_rnode rs i)) - 1 <? 0 then 0 else sort_Search n (fun i => t <? fst (nth_rnode rs i)) - 1) in *.
+    rewrite skip_plain.
+    destruct (skip_spec (length rs) p ltac:(lia) ltac:(unfold n; lia)) as (H1 & H2 & H3).
+    split; [split; [lia|exact H3]|]. split; [lia|exact H2].
+  Qed.
 End Iter.
